@@ -450,6 +450,30 @@ def corpus(tier):
     eb_ = oh.make_graph([oh.make_node("Neg", ["x"], ["e"])], "else", [], [oh.make_tensor_value_info("e", TP.FLOAT, [2])])
     g_ = oh.make_graph([oh.make_node("If", ["cnd"], ["y0"], then_branch=tb_, else_branch=eb_), oh.make_node("Add", ["y0", "x"], ["y"])], "ifconst",
                        [oh.make_tensor_value_info("x", TP.FLOAT, [2]), oh.make_tensor_value_info("cnd", TP.BOOL, [])], [oh.make_tensor_value_info("y", TP.FLOAT, [2])])
+    # while-style Loops whose condition and state variables feed each other: the body hands the CURRENT condition on to a state
+    # variable, or returns a state input as the next condition (both need the updates at the end of the body to be simultaneous)
+    one_ = nh_.from_array(np.array(1.0, dtype=np.float32), "one")
+    lim_ = nh_.from_array(np.array(3.0, dtype=np.float32), "lim")
+    for kind_ in ("state_records_current_condition", "state_input_is_next_condition"):
+        bin_ = [oh.make_tensor_value_info("it", TP.INT64, []), oh.make_tensor_value_info("ci", TP.BOOL, []),
+                oh.make_tensor_value_info("s", TP.FLOAT, []), oh.make_tensor_value_info("p", TP.BOOL, [])]
+        bn_ = [oh.make_node("Add", ["s", "one"], ["s_out"]), oh.make_node("Less", ["s_out", "lim"], ["lt"])]
+        if kind_ == "state_records_current_condition":
+            bouts_ = ["lt", "s_out", "ci"]           # p_out = the condition this iteration ran under
+        else:
+            bouts_ = ["p", "s_out", "lt"]            # cond_out = the flag computed one iteration earlier
+        bg_ = oh.make_graph(bn_, "wbody", bin_, [oh.make_tensor_value_info(bouts_[0], TP.BOOL, []), oh.make_tensor_value_info("s_out", TP.FLOAT, []),
+                                                 oh.make_tensor_value_info(bouts_[2], TP.BOOL, [])])
+        wg_ = oh.make_graph([oh.make_node("Loop", ["", "b", "x", "b"], ["sf", "pf"], body=bg_), oh.make_node("Cast", ["pf"], ["pff"], to=TP.FLOAT),
+                            oh.make_node("Add", ["sf", "pff"], ["y"])], "whileloop",
+                           [oh.make_tensor_value_info("x", TP.FLOAT, []), oh.make_tensor_value_info("b", TP.BOOL, [])],
+                           [oh.make_tensor_value_info("y", TP.FLOAT, [])], [one_, lim_])
+        wm_ = oh.make_model(wg_, opset_imports=[oh.make_opsetid("", 18)], ir_version=9)
+        try:
+            onnx.checker.check_model(wm_, full_check=True)
+            items.append((f"constuse:while_loop:{kind_}", wm_.SerializeToString(), [("x", int(TP.FLOAT), ()), ("b", int(TP.BOOL), ())]))
+        except Exception as e:  # noqa: BLE001
+            pass
     # sibling If branches that use the SAME name: a constant in one, a computed value in the other (valid ONNX: separate graphs)
     tb2_ = oh.make_graph([_cn("c", 3.0), oh.make_node("Mul", ["x", "c"], ["t"])], "then", [], [oh.make_tensor_value_info("t", TP.FLOAT, [2])])
     eb2_ = oh.make_graph([oh.make_node("Neg", ["x"], ["c"]), oh.make_node("Mul", ["x", "c"], ["e"])], "else", [], [oh.make_tensor_value_info("e", TP.FLOAT, [2])])
